@@ -416,7 +416,7 @@ def run(rep, prop, extra_configs=None, sample_mod=None):
                                not any(v['world'].get('rejected', {}).values()),
                                not v['prefs_ok']))
         for v in vs[:8]:
-            if v['conflicts'] or v['differs']:
+            if v['differs'] or (v['conflicts'] and not v.get('merge_decisions')):
                 continue
             tried += 1
             bad, out = GF.replay_on_real_git(v)
@@ -424,7 +424,7 @@ def run(rep, prop, extra_configs=None, sample_mod=None):
                 reproduced = v
                 break
         if reproduced is None and tried == 0:
-            rep.error('counterexample needs a merge conflict / differing octopus result; '
+            rep.error('counterexample needs a differing octopus result; '
                       'not replayable on a real repository: %s' % sig)
             continue
         v = reproduced or vs[0]
